@@ -264,6 +264,7 @@ Fixpoint aeqb (p p' : alg) {struct p} : bool :=
   | Project q vs, Project q' vs' => aeqb q q' && leqb N.eqb vs vs'
   | Graph t q, Graph t' q' => tv_eqb t t' && aeqb q q'
   | Distinct q, Distinct q' => aeqb q q'
+  | Slice n q, Slice n' q' => N.eqb n n' && alg_eqb q q'   (* order matters under a slice: no rewriting below it *)
   | _, _ => false
   end.
 
@@ -312,17 +313,17 @@ Definition aeq_ok2 (p : alg) : Prop :=
 
 Lemma aeqb_sound_aux p : aeq_ok2 p.
 Proof.
-  induction p as [ts|l a IHa b IHb|pv a IHa b IHb e|n fv e q IHq|a IHa b IHb|a IHa b IHb|xv q IHq v e|rows|q IHq vs|t q IHq|q IHq];
+  induction p as [ts|l a IHa b IHb|pv a IHa b IHb e|n fv e q IHq|a IHa b IHb|a IHa b IHb|xv q IHq v e|rows|q IHq vs|t q IHq|q IHq|sn q IHq];
     (split; [|first [exact I | split; [exact (proj1 IHa)|exact (proj1 IHb)]]]);
     try destruct IHa as [IHa Xa]; try destruct IHb as [IHb Xb]; try destruct IHq as [IHq Xq];
     intros p' H;
-    destruct p' as [ts'|l' a' b'|pv' a' b' e'|n' fv' e' q'|a' b'|a' b'|xv' q' v' e'|rows'|q' vs'|t' q'|q'];
+    destruct p' as [ts'|l' a' b'|pv' a' b' e'|n' fv' e' q'|a' b'|a' b'|xv' q' v' e'|rows'|q' vs'|t' q'|q'|sn' q'];
     cbn [aeqb] in H; try discriminate H; intros ds gr; cbn [eval_bu].
   - (* BGP *) apply (bu_bgp_perm ds gr ts ts'). now apply perm_eqb_perm.
   - (* Join *)
     apply orb_true_iff in H as [H|H]; [apply orb_true_iff in H as [H|H]|].
-    3: { destruct a as [|l1 x y| | | | | | | | |]; try discriminate H.
-         destruct a' as [|l1' x' y'| | | | | | | | |]; try discriminate H.
+    3: { destruct a as [|l1 x y| | | | | | | | | |]; try discriminate H.
+         destruct a' as [|l1' x' y'| | | | | | | | | |]; try discriminate H.
          destruct Xa as [Jx Jy].
          apply andb_true_iff in H as [H H6]. apply andb_true_iff in H as [H H5]. apply andb_true_iff in H as [H H4].
          apply andb_true_iff in H as [H S3]. apply andb_true_iff in H as [S1 S2].
@@ -373,6 +374,8 @@ Proof.
     + destruct (existsb _ _); [auto|reflexivity].
     + apply flat_map_perm_pointwise. intros ng _. apply join_lists_perm_l. auto.
   - (* Distinct *) apply dedup_perm. apply (IHq _ H).
+  - (* Slice: the same tree *)
+    apply andb_true_iff in H as [Hn Hq]. apply N.eqb_eq in Hn. apply alg_eqb_eq in Hq. subst. reflexivity.
 Qed.
 
 Theorem aeqb_sound p : forall p', aeqb p p' = true ->
@@ -388,6 +391,7 @@ Definition form_eqb (a b : form) : bool :=
   match a, b with
   | FSelect, FSelect | FAsk, FAsk => true
   | FConstruct t, FConstruct t' => leqb tpat_eqb t t'
+  | FStar vs, FStar vs' => leqb N.eqb vs vs'
   | _, _ => false
   end.
 
@@ -402,8 +406,9 @@ Proof.
 Qed.
 Lemma form_eqb_eq a b : form_eqb a b = true -> a = b.
 Proof.
-  destruct a, b; cbn; try discriminate; try reflexivity. intros H. f_equal.
-  revert H. apply leqb_eq. intros x y _. apply tpat_eqb_eq.
+  destruct a, b; cbn; try discriminate; try reflexivity; intros H; f_equal.
+  - revert H. apply leqb_eq. intros x y _. apply tpat_eqb_eq.
+  - now apply lN_eq.
 Qed.
 
 (* the region of the tie: every variant with an algebra of its own keeps the
@@ -491,24 +496,38 @@ Proof.
   unfold tied_group. destruct (g_kind g); try reflexivity. destruct (g_vars g); [reflexivity|discriminate].
 Qed.
 
-(* ---- witness of F-C15-1: { ?x :p ?y . { ?x :p ?z } VALUES ?w { 11 11 } } against the same
-   group with the VALUES block first.  The algebra gives two rows for both; rdflib's
-   evaluator (and the model) one row for the first, two for the second: only the right
-   operand of a non-lazy join is de-duplicated (F-C04-3) ---- *)
+(* ---- witness of F-C15-1: { ?x :p ?y . { BIND(11 AS ?y) } } against { { BIND(11 AS ?y) } ?x :p ?y }
+   over (a p b).  The algebra gives no row for either (the join of ?y = b with ?y = 11
+   is incompatible); rdflib's evaluator (and the model) gives the first ONE row: the
+   binding of ?y is pushed into the sub-group, BIND overwrites it and the join restores
+   the outer value (F-C04-1); written the other way round the answer is empty.
+   (The former witness - a hash join that de-duplicated its right operand, F-C04-3 - was
+   repaired by 3512ad97 and now passes, see w15_old_repaired.) ---- *)
 Definition w15_ds : dataset := {| ds_default := [(1, 4, 2)]; ds_named := [] |}.
 Definition w15_base : case :=
   {| c_ds := w15_ds; c_form := FSelect;
-     c_alg := Project (Join false (Join true (BGP [(Vr 1, Tm 4, Vr 2)]) (BGP [(Vr 1, Tm 4, Vr 3)]))
-                                  (Values [[(4, 11)]; [(4, 11)]])) [2; 1; 4; 3] |}.
+     c_alg := Project (Join true (BGP [(Vr 1, Tm 4, Vr 2)]) (Extend (Some [2]) (BGP []) 2 (ECon 11))) [2; 1] |}.
 Definition w15_var : case :=
   {| c_ds := w15_ds; c_form := FSelect;
-     c_alg := Project (Join false (Join true (Values [[(4, 11)]; [(4, 11)]]) (BGP [(Vr 1, Tm 4, Vr 2)]))
-                                  (BGP [(Vr 1, Tm 4, Vr 3)])) [2; 1; 3; 4] |}.
+     c_alg := Project (Join true (Extend (Some [2]) (BGP []) 2 (ECon 11)) (BGP [(Vr 1, Tm 4, Vr 2)])) [2; 1] |}.
 Definition w15 : vcase := [ {| g_base := w15_base; g_vars := [(w15_var, [])]; g_same := 0; g_kind := GNormal |} ].
 
 Lemma w15_refuted :
   spec_ok15 w15 (model_obs15 w15) = false /\ kf15 w15 = 1
-  /\ msol_eqb (spec_rows w15_base) (spec_rows w15_var) = true
-  /\ length (spec_rows w15_base) = 2%nat
-  /\ model_obs w15_base = RSel [[(1, 1); (2, 2); (3, 2); (4, 11)]].
+  /\ aeqb (c_alg w15_base) (c_alg w15_var) = true
+  /\ spec_rows w15_base = [] /\ spec_rows w15_var = []
+  /\ model_obs w15_base = RSel [[(1, 1); (2, 2)]] /\ model_obs w15_var = RSel [].
 Proof. vm_compute. repeat split; reflexivity. Qed.
+
+Definition w15_old_base : case :=
+  {| c_ds := w15_ds; c_form := FSelect;
+     c_alg := Project (Join false (Join true (BGP [(Vr 1, Tm 4, Vr 2)]) (BGP [(Vr 1, Tm 4, Vr 3)]))
+                                  (Values [[(4, 11)]; [(4, 11)]])) [2; 1; 4; 3] |}.
+Definition w15_old_var : case :=
+  {| c_ds := w15_ds; c_form := FSelect;
+     c_alg := Project (Join false (Join true (Values [[(4, 11)]; [(4, 11)]]) (BGP [(Vr 1, Tm 4, Vr 2)]))
+                                  (BGP [(Vr 1, Tm 4, Vr 3)])) [2; 1; 3; 4] |}.
+Definition w15_old : vcase :=
+  [ {| g_base := w15_old_base; g_vars := [(w15_old_var, [])]; g_same := 0; g_kind := GNormal |} ].
+Lemma w15_old_repaired : spec_ok15 w15_old (model_obs15 w15_old) = true /\ kf15 w15_old = 0.
+Proof. vm_compute. split; reflexivity. Qed.
